@@ -82,9 +82,12 @@ Yr  == {<<"2000">>, <<"1999">>, <<"0000">>, <<"-", "0001">>, <<"12345">>, <<"020
        \cup (IF Full THEN {<<"+", "2000">>, <<"-", "0000">>, <<"-", "12345">>, <<"0001">>} ELSE {})
 Mo  == {<<"01">>, <<"02">>, <<"13">>} \cup (IF Full THEN {<<"12">>, <<"00">>, <<"04">>, <<"1">>} ELSE {})
 Dy  == {<<"01">>, <<"29">>, <<"30">>, <<"32">>} \cup (IF Full THEN {<<"28">>, <<"31">>, <<"00">>, <<"1">>} ELSE {})
-Tz  == {<<>>, <<"Z">>, <<"+14:00">>, <<"+14:01">>, <<"-00:00">>, <<" ">>}
-       \cup (IF Full THEN {<<"-14:00">>, <<"+05:30">>, <<"+00:00">>, <<"+13:60">>, <<"+5:30">>, <<"z">>, <<"Z", "Z">>} ELSE {})
-TzS == {<<>>, <<"Z">>, <<"+05:30">>, <<"+14:01">>}
+(* timezones: none, Z, both zero spellings, whole and half hours of both signs, the +-14:00 limits and
+   NEGATIVE SUB-HOUR offsets, whose hour field is zero so that only the '-' character carries the sign *)
+Tz  == {<<>>, <<"Z">>, <<"+14:00">>, <<"+14:01">>, <<"-00:00">>, <<" ">>, <<"+00:00">>, <<"+05:30">>, <<"-05:30">>,
+        <<"-14:00">>, <<"-00:30">>, <<"-00:01">>, <<"-00:59">>}
+       \cup (IF Full THEN {<<"+13:60">>, <<"+5:30">>, <<"z">>, <<"Z", "Z">>} ELSE {})
+TzS == {<<>>, <<"Z">>, <<"+05:30">>, <<"+14:01">>, <<"-00:30">>, <<"-00:59">>}
 Hr  == {<<"00">>, <<"23">>, <<"24">>, <<"25">>}
 Mi  == {<<"00">>, <<"59">>, <<"60">>}
 Sc  == {<<"00">>, <<"59">>, <<"60">>, <<"00", ".", "0">>, <<"01", ".", "5", "0">>, <<"00", ".">>}
@@ -134,7 +137,13 @@ FloProbes == {<<"1","e","-","7">>, <<"1","E","-","0","7">>, <<"1","e","-","6">>,
               <<"1","2","3","4","5","6",".","7">>, <<"-","0",".","0","e","0">>, <<"1",".","0","E","-","7">>,
               <<"1",".","2","5","E","1","0">>, <<"-","1","e","-","7">>, <<"+","INF">>, <<"-","INF">>, <<"+","NaN">>,
               <<"3",".","4","0","2","8","2","3","5","e","3","8">>, <<"3",".","4","0","2","8","2","3","6","e","3","8">>,
-              <<"1","e","3","9">>, <<"7","e","3","8">>, <<"1","e","3","8">>, <<"-","7","e","7","7">>}
+              <<"1","e","3","9">>, <<"7","e","3","8">>, <<"1","e","3","8">>, <<"-","7","e","7","7">>,
+              \* exponents that end in zero, mantissa with a fraction (digits of the exponent must survive)
+              <<"1",".","5","e","2","0">>, <<"1","e","2","0">>, <<"1",".","5","e","-","1","0">>, <<"-","2",".","5","e","1","0","0">>,
+              \* the small end of xs:float: 5e-38 is a normal single, 1e-38 and 1e-45 are subnormal,
+              \* 7e-46 and 1e-46 are below half of the smallest subnormal (2^-150) and round to zero
+              <<"5","e","-","3","8">>, <<"1","e","-","3","8">>, <<"1","e","-","4","5">>, <<"7","e","-","4","6">>,
+              <<"1","e","-","4","6">>, <<"-","1","e","-","4","0">>}
 DecProbes == {<<"0","0","7",".","7","0","0">>, <<".","7","0">>, <<"-","0",".","0">>, <<"+",".","0">>, <<"-","0">>,
               <<"1","2","3","4","5","6","7","8","9","0","1","2","3","4","5","6","7","8","9","0",".","1","2","5">>,
               <<"0",".","0","0","0","0","0","0","1">>, <<"1","0","0","0","0","0","0","0">>, <<"1","e","2">>}
@@ -147,7 +156,7 @@ DurProbes == {<<"P","T","1",".","1","S">>, <<"P","T","1",".","S">>, <<"P","1","Y
 B64Probes == {<<"A","A"," ","=","=">>, <<"A"," ","A"," ","A"," ","A">>, <<"A","A","A","A","A","A","=","=">>,
               <<"A","A","A","A","A","Q","=","=">>, <<"A","A","A","A"," ","A","A","c","=">>, <<"A","A","=","=","A","A","A","A">>,
               <<"A","A","A"," "," ","A">>, <<"/","w","=","=">>, <<"+","INF">>}
-HexProbes == {<<"0","a","F","f","7","7">>, <<"0","7"," ","0","7">>, <<"0","x","0","7">>}
+HexProbes == {<<"0","a","F","f","7","7">>, <<"0","7"," ","0","7">>, <<"0","x","0","7">>, <<"HEX58">>, <<"HEX58", "F", "F">>}
 NameProbes == {<<"a","a","a","a","a","a","a","a">>, <<"a","a","a","a","a","a","a","a","a">>,
                <<"a","-","a","a","a","a","a","a","a","7">>, <<"a","-","a","a","a","a","a","a","a","a","7">>,
                <<"a","-","7","-","a">>, <<"a",":","a",":","a">>, <<"a",":","a">>, <<"b",":","a">>, <<"_","a",".","7">>}
@@ -167,7 +176,34 @@ Probes(T) ==
   ELSE IF T \in NameTypes \cup {"QName"} THEN NameProbes
   ELSE IF T \in DateTypes THEN DateFamLits(T)
   ELSE {}
-Strs(T) == AllSeqs(Alphabet(FamOf(T)), FamLen(FamOf(T))) \cup Probes(T) \cup Cross
+(* NON-ASCII look-alikes: every valid base literal of the type with ONE character replaced by each of
+   its non-ASCII partners (what Python's re.IGNORECASE, \d, \s, int(), float(), str.strip() would
+   take for it), and with one non-XML whitespace character (or a blank) put in front / behind *)
+Partners(c) ==
+  (IF c \in {"s", "S"} THEN {"U017F"} ELSE {}) \cup (IF c \in {"i", "I"} THEN {"U0130", "U0131"} ELSE {})
+  \cup (IF c \in {"k", "K"} THEN {"U212A"} ELSE {}) \cup (IF IsLetter(c) THEN {"UFF21"} ELSE {})
+  \cup (IF IsDigit(c) THEN NonAsciiDigits ELSE {}) \cup (IF c = "+" THEN {"UFF0B"} ELSE {})
+  \cup (IF c = "-" THEN {"U2212"} ELSE {}) \cup (IF IsWs(c) THEN UniWs ELSE {})
+SubstOne(cs) == UNION {{[cs EXCEPT ![i] = p] : p \in Partners(cs[i])} : i \in 1..Len(cs)}
+PadOne(cs)   == UNION {{<<w>> \o cs, cs \o <<w>>} : w \in UniWs \cup {" "}}
+NaBase(f) ==
+  CASE f = "bool" -> {<<"false">>, <<"true">>, <<"1">>}
+    [] f = "int"  -> {<<"+","1","7">>, <<"-","1","7">>, <<"0">>}
+    [] f = "dec"  -> {<<"-","1",".","7">>, <<"+",".","7">>}
+    [] f = "flo"  -> {<<"-","1",".","7","e","+","1">>, <<"1","E","-","1">>, <<"INF">>, <<"-","INF">>, <<"NaN">>}
+    [] f \in {"str", "uri"} -> {<<"s"," ","i">>, <<"k","TAB","1">>, <<"a","/","i">>}
+    [] f = "name" -> {<<"s","v">>, <<"i","s","-","I","K">>, <<"k","i","-","7","s">>, <<"a",":","s","k">>, <<"s","i","k",".","1">>}
+    [] f = "hex"  -> {<<"1","a","A","7">>}
+    [] f = "b64"  -> {<<"s","i","k","K">>, <<"A","A","s","=">>, <<"A","Q","=","=">>, <<"A","A"," ","A","A">>}
+    [] f = "dur"  -> {<<"-","P","1","Y","1","M","1","D","T","1","H","1","M","1",".","1","S">>, <<"P","T","1","S">>,
+                      <<"P","1","Y","1","M">>, <<"P","1","D","T","1","S">>}
+    [] f = "date" -> {<<"2000","-","01","-","01","+05:30">>, <<"-","0001","-","12","-","31","Z">>,
+                      <<"12",":","30",":","01",".","5","0","-05:30">>, <<"2000","-","01","-","01","T","12",":","30",":","01","Z">>,
+                      <<"2000","Z">>, <<"2000","-","01","-14:00">>, <<"-","-","01","-","01","Z">>,
+                      <<"-","-","-","01","+14:00">>, <<"-","-","01","-00:30">>}
+NonAsciiProbes(T) ==
+  UNION {SubstOne(Flat(b)) \cup PadOne(Flat(b)) : b \in {b \in NaBase(FamOf(T)) : InLexicalSpace(T, Flat(b), "1.1")}}
+Strs(T) == AllSeqs(Alphabet(FamOf(T)), FamLen(FamOf(T))) \cup Probes(T) \cup Cross \cup NonAsciiProbes(T)
 
 ---------------------------------------------------------------------------
 (* the 22 primitive (and F&O-table) types: the only targets after the first cast of a chain *)
